@@ -1266,7 +1266,8 @@ export class TupleRuntype extends BaseRuntype {
     popPath(ctx);
     return annotateSchema(this.metadata, {
       type: "array",
-      prefixItems,
+      // Draft 2020-12 requires prefixItems to be a non-empty array
+      ...(prefixItems.length > 0 ? { prefixItems } : {}),
       items,
       // validate() reads a missing element as undefined: only elements that accept it may be left out
       minItems: this.requiredLength(),
